@@ -14,6 +14,7 @@ import (
 
 	"github.com/consensys/gnark-crypto/ecc"
 	bn254 "github.com/consensys/gnark-crypto/ecc/bn254"
+	"github.com/consensys/gnark-crypto/ecc/bn254/fp"
 	"github.com/consensys/gnark/backend/groth16"
 )
 
@@ -31,7 +32,113 @@ func verifMakeProof(a, b, c int64) ([]byte, groth16.Proof, error) {
 	return raw, p, err
 }
 
+// verifBandPoint: a G1 point whose x coordinate lies in [r, p) — a legitimate base-field coordinate that is not a
+// scalar-field element (x = r + k for the first k with x^3 + 3 a square)
+func verifBandPoint() (bn254.G1Affine, bool) {
+	r := ecc.BN254.ScalarField()
+	for k := int64(0); k < 64; k++ {
+		var x, rhs, y fp.Element
+		x.SetBigInt(new(big.Int).Add(r, big.NewInt(k)))
+		rhs.Square(&x).Mul(&rhs, &x)
+		var three fp.Element
+		three.SetUint64(3)
+		rhs.Add(&rhs, &three)
+		if y.Sqrt(&rhs) == nil {
+			continue
+		}
+		p := bn254.G1Affine{X: x, Y: y}
+		if p.IsOnCurve() {
+			return p, true
+		}
+	}
+	return bn254.G1Affine{}, false
+}
+
+func verifHexOf(e *fp.Element) string {
+	var b big.Int
+	e.BigInt(&b)
+	return "0x" + b.Text(16)
+}
+
+// verifCheckDoc: the document lists the coordinates in the order the EVM verifier takes them
+// (ar = A.x, A.y; bs = [[B.x.a1, B.x.a0], [B.y.a1, B.y.a0]]; krs = C.x, C.y)
+func verifCheckDoc(doc []byte, A, C *bn254.G1Affine, B *bn254.G2Affine) string {
+	var d struct {
+		Ar  [2]string    `json:"ar"`
+		Bs  [2][2]string `json:"bs"`
+		Krs [2]string    `json:"krs"`
+	}
+	if err := json.Unmarshal(doc, &d); err != nil {
+		return "document does not have the ar/bs/krs layout: " + err.Error()
+	}
+	num := func(s string) string {
+		v, ok := new(big.Int).SetString(s, 0)
+		if !ok {
+			return "?" + s
+		}
+		return "0x" + v.Text(16)
+	}
+	want := []string{verifHexOf(&A.X), verifHexOf(&A.Y), verifHexOf(&B.X.A1), verifHexOf(&B.X.A0), verifHexOf(&B.Y.A1), verifHexOf(&B.Y.A0), verifHexOf(&C.X), verifHexOf(&C.Y)}
+	got := []string{num(d.Ar[0]), num(d.Ar[1]), num(d.Bs[0][0]), num(d.Bs[0][1]), num(d.Bs[1][0]), num(d.Bs[1][1]), num(d.Krs[0]), num(d.Krs[1])}
+	names := []string{"ar[0]=A.x", "ar[1]=A.y", "bs[0][0]=B.x.a1", "bs[0][1]=B.x.a0", "bs[1][0]=B.y.a1", "bs[1][1]=B.y.a0", "krs[0]=C.x", "krs[1]=C.y"}
+	for i := range want {
+		if want[i] != got[i] {
+			return fmt.Sprintf("%s is %s in the document, the coordinate is %s", names[i], got[i], want[i])
+		}
+	}
+	return ""
+}
+
+func verifRoundTrip(name string, A, C bn254.G1Affine, B bn254.G2Affine) bool {
+	ra, rb, rc := A.RawBytes(), B.RawBytes(), C.RawBytes()
+	raw := append(append(append([]byte{}, ra[:]...), rb[:]...), rc[:]...)
+	gp := groth16.NewProof(ecc.BN254)
+	if _, err := gp.ReadFrom(bytes.NewReader(raw)); err != nil {
+		fmt.Printf("REPLAY-SKIP could not build synthetic proof %s: %v\n", name, err)
+		return true
+	}
+	p := &Proof{gp}
+	doc, err := json.Marshal(p)
+	if err != nil {
+		fmt.Printf("REPLAY-FAIL {\"function\":\"Proof.MarshalJSON\",\"proof\":%q,\"error\":%q}\n", name, err.Error())
+		return false
+	}
+	if msg := verifCheckDoc(doc, &A, &C, &B); msg != "" {
+		fmt.Printf("REPLAY-FAIL {\"function\":\"Proof.MarshalJSON\",\"proof\":%q,\"json\":%q,\"error\":%q}\n", name, string(doc), msg)
+		return false
+	}
+	var q Proof
+	if err := json.Unmarshal(doc, &q); err != nil {
+		fmt.Printf("REPLAY-FAIL {\"function\":\"Proof.UnmarshalJSON\",\"proof\":%q,\"json\":%q,\"error\":%q}\n", name, string(doc), err.Error())
+		return false
+	}
+	var buf bytes.Buffer
+	q.Proof.WriteRawTo(&buf)
+	if !bytes.Equal(buf.Bytes()[:256], raw) {
+		fmt.Printf("REPLAY-FAIL {\"function\":\"Proof.UnmarshalJSON\",\"proof\":%q,\"json\":%q,\"error\":\"decoded proof differs from the original\"}\n", name, string(doc))
+		return false
+	}
+	return true
+}
+
 func TestVerifReplayC10(t *testing.T) {
+	_, _, g1, g2 := bn254.Generators()
+	if bp, ok := verifBandPoint(); ok {
+		// a coordinate in [r, p), as A and as C
+		if !verifRoundTrip("A = point with x in [r,p), B = G2, C = G1", bp, g1, g2) || !verifRoundTrip("A = G1, B = G2, C = point with x in [r,p)", g1, bp, g2) {
+			return
+		}
+	}
+	for a := int64(1); a <= 12; a++ {
+		var A, C bn254.G1Affine
+		var B bn254.G2Affine
+		A.ScalarMultiplication(&g1, big.NewInt(a))
+		B.ScalarMultiplication(&g2, big.NewInt(a+2))
+		C.ScalarMultiplication(&g1, big.NewInt(3*a))
+		if !verifRoundTrip(fmt.Sprintf("A=%d*G1,B=%d*G2,C=%d*G1", a, a+2, 3*a), A, C, B) {
+			return
+		}
+	}
 	for a := int64(1); a <= 40; a++ {
 		for _, c := range []int64{1, 2, 3, a + 1} {
 			raw, gp, err := verifMakeProof(a, a+2, c)
